@@ -144,35 +144,204 @@ func TestVerifC01Check(t *testing.T) {
 
 func c01Key(r *rand.Rand, nk int) string { return c01Keys[r.Intn(nk)] }
 
+// c01Hist is one history on a fresh Check: the operations (each emits its Q line and runs the
+// direct oracles) are methods so that the random walk and the structured scenarios share them.
+type c01Hist struct {
+	tr       *lib.Trace
+	ck       *Check
+	h        int
+	hs       []*c01Tran
+	log      []*c01Tran
+	exclOn   map[int]bool // AddExclusive returned true and EndExclusive not yet called
+	exclEnd  map[int]int  // sequence number assigned by the last EndExclusive
+	scenario string
+}
+
+func (c *c01Hist) emit(op, res string) { c.tr.Q(op, res+" | "+c01Digest(c.ck)) }
+
+func (c *c01Hist) start() *c01Tran {
+	x := &c01Tran{ct: c.ck.StartTran()}
+	c.hs = append(c.hs, x)
+	c.emit("start", strconv.Itoa(x.ct.start))
+	c.tr.Count("check.op.start")
+	return x
+}
+
+func (c *c01Hist) read(x *c01Tran, tbl, idx int, from, to string) bool {
+	ck := c.ck
+	before := c01Snapshot(ck)
+	rcBefore := x.ct.readConflict != ""
+	var res bool
+	if msg := lib.Catch(func() { res = ck.Read(x.ct, strconv.Itoa(tbl), idx, from, to) }); msg != "" {
+		c.emit("read-panic", "!panic")
+		return false
+	}
+	ch := lib.Ints(c01Changed(ck, before, x.ct.start))
+	c.emit(fmt.Sprintf("read %d %d %d %s %s %s %s", x.ct.start, tbl, idx, lib.X(from), lib.X(to), ch, ch), lib.B(res))
+	if res && !rcBefore {
+		x.reads = append(x.reads, c01Read{tbl, idx, from, to})
+	}
+	c.tr.Count("check.op.read=" + lib.B(res))
+	if from == "" && to == "" {
+		c.tr.Count("check.read.emptykey")
+	}
+	return res
+}
+
+// write: kind 0 output(ks), 1 delete(ks), 2 update(ks -> ks2)
+func (c *c01Hist) write(x *c01Tran, kind, tbl int, ks, ks2 []string) bool {
+	ck := c.ck
+	before := c01Snapshot(ck)
+	var res bool
+	op := []string{"output", "delete", "update"}[kind]
+	msg := lib.Catch(func() {
+		switch kind {
+		case 0:
+			res = ck.Output(x.ct, strconv.Itoa(tbl), ks)
+		case 1:
+			res = ck.Delete(x.ct, strconv.Itoa(tbl), 1, ks)
+		case 2:
+			res = ck.Update(x.ct, strconv.Itoa(tbl), 1, ks, ks2)
+		}
+	})
+	if msg != "" {
+		c.emit(op+"-panic", "!panic")
+		return false
+	}
+	ch := lib.Ints(c01Changed(ck, before, x.ct.start))
+	line := fmt.Sprintf("%s %d %d %s %s", op, x.ct.start, tbl, ch, ch)
+	if kind == 2 {
+		line += fmt.Sprintf(" %d %s %s", len(ks), lib.Xs(ks), lib.Xs(ks2))
+		same := 0
+		for i := range ks {
+			if ks[i] == ks2[i] {
+				same++
+			}
+		}
+		c.tr.Count(fmt.Sprintf("check.update.unchanged-keys=%d/%d", same, len(ks)))
+	} else {
+		line += " " + lib.Xs(ks)
+	}
+	c.emit(line, lib.B(res))
+	if res {
+		for i, k := range ks {
+			x.writes = append(x.writes, c01Write{tbl, i, k})
+		}
+		for i, k := range ks2 {
+			x.writes = append(x.writes, c01Write{tbl, i, k})
+		}
+		// direct oracle: exclusive table access.  A write must be refused while the table is
+		// exclusive, and after EndExclusive for every transaction that started before it.
+		if c.exclOn[tbl] {
+			c.tr.Fail("ck-exclusive-write", fmt.Sprintf("history %d%s: %s by ut%d on table %d accepted while the table is exclusive "+
+				"(AddExclusive succeeded, EndExclusive not yet called); checker: %s", c.h, c.scenario, op, x.ct.start, tbl, c01Digest(ck)))
+		} else if x.ct.start < c.exclEnd[tbl] {
+			c.tr.Fail("ck-exclusive-write-after", fmt.Sprintf("history %d%s: %s by ut%d on table %d accepted although the table was "+
+				"exclusive until %d (after ut%d started)", c.h, c.scenario, op, x.ct.start, tbl, c.exclEnd[tbl], x.ct.start))
+		}
+	}
+	c.tr.Count("check.op." + op + "=" + lib.B(res))
+	if ch != "-" {
+		c.tr.Count("check.conflict-others")
+	}
+	return res
+}
+
+func (c *c01Hist) commit(x *c01Tran) {
+	ck := c.ck
+	wasActive := false
+	if _, ok := ck.actvTran[x.ct.start]; ok {
+		wasActive = true
+	}
+	var tw []string
+	if msg := lib.Catch(func() { tw = ck.commit(&UpdateTran{ct: x.ct}) }); msg != "" {
+		c.emit(fmt.Sprintf("commit %d", x.ct.start), "!panic")
+		c.tr.Fail("ck-commit-panic", msg)
+		return
+	}
+	res := "nil"
+	if tw != nil {
+		res = "[" + strings.Join(tw, ",") + "]"
+	}
+	c.emit(fmt.Sprintf("commit %d", x.ct.start), res)
+	c.tr.Count("check.op.commit=" + fmt.Sprint(tw != nil))
+	if tw != nil && wasActive && x.ct.hasUpdates {
+		x.end = x.ct.end
+		// direct oracle: ck_serializable on the real checker
+		for _, y := range c.log {
+			if y.end > x.ct.start {
+				for _, w := range y.writes {
+					for _, rd := range x.reads {
+						if rd.tbl == w.tbl && rd.idx == w.idx && c01InRange(rd.from, rd.to, w.key) {
+							sig := "ck-serial"
+							if w.key == "" {
+								sig = "ck-serial-emptykey"
+							}
+							c.tr.Fail(sig, fmt.Sprintf("history %d%s: ut%d (end %d) read [%q,%q] on table %d index %d, "+
+								"ut%d committed at %d (after ut%d started) wrote %q, both committed",
+								c.h, c.scenario, x.ct.start, x.end, rd.from, rd.to, rd.tbl, rd.idx, y.ct.start, y.end, x.ct.start, w.key))
+						}
+					}
+				}
+			}
+		}
+		c.log = append(c.log, x)
+		c.tr.Count("check.committed-update")
+	}
+}
+
+func (c *c01Hist) abort(x *c01Tran) {
+	res := c.ck.Abort(x.ct, "")
+	c.emit(fmt.Sprintf("abort %d", x.ct.start), lib.B(res))
+	c.tr.Count("check.op.abort=" + lib.B(res))
+}
+
+func (c *c01Hist) tick() {
+	c.ck.tick()
+	c.emit(fmt.Sprintf("tick %d", MaxAge), "-")
+	c.tr.Count("check.op.tick")
+}
+
+func (c *c01Hist) addExcl(tbl int) {
+	res := c.ck.AddExclusive(strconv.Itoa(tbl))
+	c.emit(fmt.Sprintf("addexcl %d", tbl), lib.B(res))
+	c.tr.Count("check.op.addexcl=" + lib.B(res))
+	if res {
+		c.exclOn[tbl] = true
+	}
+}
+
+func (c *c01Hist) endExcl(tbl int) {
+	c.ck.EndExclusive(strconv.Itoa(tbl))
+	c.emit(fmt.Sprintf("endexcl %d", tbl), "-")
+	c.tr.Count("check.op.endexcl")
+	if c.exclOn[tbl] {
+		c.exclOn[tbl] = false
+		c.exclEnd[tbl] = c.ck.seq
+	}
+}
+
+func (c *c01Hist) live() []*c01Tran {
+	var live []*c01Tran
+	for _, x := range c.hs {
+		if _, ok := c.ck.actvTran[x.ct.start]; ok {
+			live = append(live, x)
+		}
+	}
+	return live
+}
+
 func c01History(tr *lib.Trace, r *rand.Rand, h int) {
-	ck := NewCheck(&Database{})
+	c := &c01Hist{tr: tr, ck: NewCheck(&Database{}), h: h, exclOn: map[int]bool{}, exclEnd: map[int]int{}}
+	ck := c.ck
 	tr.Q("reset", "ok")
 	checkerAbortT1 = r.Intn(3) == 0
 	MaxAge = 2 + r.Intn(19)
 	ntab := 1 + r.Intn(3)
 	nidx := 1 + r.Intn(3)
 	nk := 2 + r.Intn(len(c01Keys)-1)
-	var hs []*c01Tran
-	var log []*c01Tran
-	nsteps := 5 + r.Intn(40)
 	tr.Count(fmt.Sprintf("check.tables=%d", ntab))
 	tr.Count(fmt.Sprintf("check.abortT1=%v", checkerAbortT1))
-	emit := func(op, res string) {
-		tr.Q(op, res+" | "+c01Digest(ck))
-	}
-	pickH := func() *c01Tran {
-		// mostly live handles, sometimes dead ones
-		var live []*c01Tran
-		for _, x := range hs {
-			if _, ok := ck.actvTran[x.ct.start]; ok {
-				live = append(live, x)
-			}
-		}
-		if len(live) > 0 && r.Intn(10) != 0 {
-			return live[r.Intn(len(live))]
-		}
-		return hs[r.Intn(len(hs))]
-	}
 	keys := func() []string {
 		ks := make([]string, nidx)
 		for i := range ks {
@@ -180,21 +349,36 @@ func c01History(tr *lib.Trace, r *rand.Rand, h int) {
 		}
 		return ks
 	}
+	// structured prefixes: the two families of schedules a pure random walk rarely completes
+	switch r.Intn(8) {
+	case 0, 1:
+		nidx = 2 + r.Intn(2)
+		c01Skew(c, r, ntab, nidx, nk)
+	case 2:
+		ntab = 2 + r.Intn(2)
+		c01Exclusive(c, r, ntab, nidx, nk)
+	}
+	pickH := func() *c01Tran {
+		// mostly live handles, sometimes dead ones
+		live := c.live()
+		if len(live) > 0 && r.Intn(10) != 0 {
+			return live[r.Intn(len(live))]
+		}
+		return c.hs[r.Intn(len(c.hs))]
+	}
+	nsteps := 5 + r.Intn(40)
 	for s := 0; s < nsteps; s++ {
-		c := r.Intn(100)
-		if len(hs) == 0 {
-			c = 0
+		k := r.Intn(100)
+		if len(c.hs) == 0 {
+			k = 0
 		}
 		switch {
-		case c < 12:
-			if len(hs) >= 8 {
+		case k < 12:
+			if len(c.hs) >= 10 {
 				continue
 			}
-			x := &c01Tran{ct: ck.StartTran()}
-			hs = append(hs, x)
-			emit("start", strconv.Itoa(x.ct.start))
-			tr.Count("check.op.start")
-		case c < 40: // read
+			c.start()
+		case k < 40: // read
 			x := pickH()
 			tbl, idx := r.Intn(ntab), r.Intn(nidx)
 			from, to := c01Key(r, nk), c01Key(r, nk)
@@ -204,138 +388,188 @@ func c01History(tr *lib.Trace, r *rand.Rand, h int) {
 			if from > to {
 				from, to = to, from
 			}
-			before := c01Snapshot(ck)
-			rcBefore := x.ct.readConflict != ""
-			var res bool
-			if msg := lib.Catch(func() { res = ck.Read(x.ct, strconv.Itoa(tbl), idx, from, to) }); msg != "" {
-				emit("read-panic", "!panic")
-				continue
-			}
-			ch := lib.Ints(c01Changed(ck, before, x.ct.start))
-			emit(fmt.Sprintf("read %d %d %d %s %s %s %s", x.ct.start, tbl, idx, lib.X(from), lib.X(to), ch, ch), lib.B(res))
-			if res && !rcBefore {
-				x.reads = append(x.reads, c01Read{tbl, idx, from, to})
-			}
-			tr.Count("check.op.read=" + lib.B(res))
-			if from == "" && to == "" {
-				tr.Count("check.read.emptykey")
-			}
-		case c < 72: // output / delete / update
+			c.read(x, tbl, idx, from, to)
+		case k < 72: // output / delete / update
 			x := pickH()
 			tbl := r.Intn(ntab)
-			before := c01Snapshot(ck)
-			var res bool
-			var op string
 			ks := keys()
 			var ks2 []string
 			kind := r.Intn(3)
-			msg := lib.Catch(func() {
-				switch kind {
-				case 0:
-					op = "output"
-					res = ck.Output(x.ct, strconv.Itoa(tbl), ks)
-				case 1:
-					op = "delete"
-					res = ck.Delete(x.ct, strconv.Itoa(tbl), 1, ks)
-				case 2:
-					op = "update"
-					ks2 = keys()
-					if r.Intn(2) == 0 {
-						ks2[r.Intn(nidx)] = ks[0] // often the same key
-						copy(ks2, ks[:r.Intn(nidx+1)])
-					}
-					res = ck.Update(x.ct, strconv.Itoa(tbl), 1, ks, ks2)
-				}
-			})
-			if msg != "" {
-				emit(op+"-panic", "!panic")
-				continue
-			}
-			ch := lib.Ints(c01Changed(ck, before, x.ct.start))
-			line := fmt.Sprintf("%s %d %d %s %s", op, x.ct.start, tbl, ch, ch)
 			if kind == 2 {
-				line += fmt.Sprintf(" %d %s %s", len(ks), lib.Xs(ks), lib.Xs(ks2))
-			} else {
-				line += " " + lib.Xs(ks)
-			}
-			emit(line, lib.B(res))
-			if res {
-				for i, k := range ks {
-					x.writes = append(x.writes, c01Write{tbl, i, k})
-				}
-				for i, k := range ks2 {
-					x.writes = append(x.writes, c01Write{tbl, i, k})
-				}
-			}
-			tr.Count("check.op." + op + "=" + lib.B(res))
-			if ch != "-" {
-				tr.Count("check.conflict-others")
-			}
-		case c < 84: // commit
-			x := pickH()
-			wasActive := false
-			if _, ok := ck.actvTran[x.ct.start]; ok {
-				wasActive = true
-			}
-			var tw []string
-			if msg := lib.Catch(func() { tw = ck.commit(&UpdateTran{ct: x.ct}) }); msg != "" {
-				emit(fmt.Sprintf("commit %d", x.ct.start), "!panic")
-				tr.Fail("ck-commit-panic", msg)
-				continue
-			}
-			res := "nil"
-			if tw != nil {
-				res = "[" + strings.Join(tw, ",") + "]"
-			}
-			emit(fmt.Sprintf("commit %d", x.ct.start), res)
-			tr.Count("check.op.commit=" + fmt.Sprint(tw != nil))
-			if tw != nil && wasActive && x.ct.hasUpdates {
-				x.end = x.ct.end
-				// direct oracle: ck_serializable on the real checker
-				for _, y := range log {
-					if y.end > x.ct.start {
-						for _, w := range y.writes {
-							for _, rd := range x.reads {
-								if rd.tbl == w.tbl && rd.idx == w.idx && c01InRange(rd.from, rd.to, w.key) {
-									sig := "ck-serial"
-									if w.key == "" {
-										sig = "ck-serial-emptykey"
-									}
-									tr.Fail(sig, fmt.Sprintf("history %d: ut%d (end %d) read [%q,%q] on table %d index %d, "+
-										"ut%d committed at %d (after ut%d started) wrote %q, both committed",
-										h, x.ct.start, x.end, rd.from, rd.to, rd.tbl, rd.idx, y.ct.start, y.end, x.ct.start, w.key))
-								}
-							}
+				ks2 = keys()
+				if r.Intn(2) == 0 {
+					// an update usually leaves most keys alone: keep a random subset
+					for i := range ks2 {
+						if r.Intn(3) != 0 {
+							ks2[i] = ks[i]
 						}
 					}
 				}
-				log = append(log, x)
-				tr.Count("check.committed-update")
 			}
-		case c < 90:
-			x := pickH()
-			res := ck.Abort(x.ct, "")
-			emit(fmt.Sprintf("abort %d", x.ct.start), lib.B(res))
-			tr.Count("check.op.abort=" + lib.B(res))
-		case c < 94:
-			ck.tick()
-			emit(fmt.Sprintf("tick %d", MaxAge), "-")
-			tr.Count("check.op.tick")
-		case c < 96:
-			tbl := r.Intn(ntab)
-			res := ck.AddExclusive(strconv.Itoa(tbl))
-			emit(fmt.Sprintf("addexcl %d", tbl), lib.B(res))
-			tr.Count("check.op.addexcl=" + lib.B(res))
-		case c < 98:
-			tbl := r.Intn(ntab)
-			ck.EndExclusive(strconv.Itoa(tbl))
-			emit(fmt.Sprintf("endexcl %d", tbl), "-")
-			tr.Count("check.op.endexcl")
+			c.write(x, kind, tbl, ks, ks2)
+		case k < 84:
+			c.commit(pickH())
+		case k < 89:
+			c.abort(pickH())
+		case k < 93:
+			c.tick()
+		case k < 96:
+			c.addExcl(r.Intn(ntab))
+		case k < 98:
+			c.endExcl(r.Intn(ntab))
 		default:
 			x := pickH()
-			emit(fmt.Sprintf("readcount %d", x.ct.start), strconv.Itoa(ck.ReadCount(x.ct)))
+			c.emit(fmt.Sprintf("readcount %d", x.ct.start), strconv.Itoa(ck.ReadCount(x.ct)))
 		}
 	}
+}
+
+// c01Skew: two (or three) overlapping transactions; one reads a point or range on some index and
+// writes something unrelated, the other writes (output, delete, or an update that leaves the
+// earlier index keys unchanged) a key inside that range on that index; reads before or after the
+// write; both try to commit, in either order.  Everything is random but the shape.
+func c01Skew(c *c01Hist, r *rand.Rand, ntab, nidx, nk int) {
+	c.scenario = " (skew scenario)"
+	c.tr.Count("check.scenario.skew")
+	a, b := c.start(), c.start()
+	tbl := r.Intn(ntab)
+	j := r.Intn(nidx)
+	from, to := c01Key(r, nk), c01Key(r, nk)
+	if from > to {
+		from, to = to, from
+	}
+	if r.Intn(3) == 0 {
+		to = from
+	}
+	inside := from
+	for _, k := range c01Keys[:nk] {
+		if from <= k && k <= to && r.Intn(2) == 0 {
+			inside = k
+		}
+	}
+	other := func() []string {
+		ks := make([]string, nidx)
+		for i := range ks {
+			ks[i] = "z" + c01Key(r, nk) // outside every range over c01Keys
+		}
+		return ks
+	}
+	aRead := func() { c.read(a, tbl, j, from, to) }
+	aWrite := func() { c.write(a, r.Intn(2), (tbl+r.Intn(ntab))%ntab, other(), nil) }
+	bWrite := func() {
+		old := other()
+		ks := append([]string(nil), old...)
+		switch kind := r.Intn(3); kind {
+		case 0, 1:
+			ks[j] = inside
+			c.write(b, kind, tbl, ks, nil)
+		default:
+			// update: keys before j unchanged, key j moves into (or out of) the range
+			if r.Intn(2) == 0 {
+				ks[j] = inside
+				c.write(b, 2, tbl, old, ks)
+			} else {
+				ks[j] = inside
+				c.write(b, 2, tbl, ks, old)
+			}
+		}
+	}
+	steps := []func(){aRead, aWrite, bWrite}
+	r.Shuffle(len(steps), func(i, k int) { steps[i], steps[k] = steps[k], steps[i] })
+	for _, f := range steps {
+		f()
+		if r.Intn(6) == 0 {
+			c.tick()
+		}
+	}
+	if r.Intn(2) == 0 {
+		a, b = b, a
+	}
+	c.commit(a)
+	if r.Intn(4) != 0 {
+		c.commit(b)
+	}
+	c.scenario = ""
+}
+
+// c01Exclusive: a table is made exclusive (as Ensure / AlterCreate do around an index build);
+// meanwhile transactions on other tables start and commit or abort - often leaving no update
+// transaction active - other exclusives end, time passes; then transactions (started before or
+// after) write to the exclusive table; finally the exclusive ends and older transactions try again.
+func c01Exclusive(c *c01Hist, r *rand.Rand, ntab, nidx, nk int) {
+	c.scenario = " (exclusive scenario)"
+	c.tr.Count("check.scenario.exclusive")
+	keys := func() []string {
+		ks := make([]string, nidx)
+		for i := range ks {
+			ks[i] = c01Key(r, nk)
+		}
+		return ks
+	}
+	x := r.Intn(ntab)
+	var early []*c01Tran
+	for i := r.Intn(3); i > 0; i-- {
+		early = append(early, c.start())
+	}
+	if r.Intn(3) == 0 {
+		y := (x + 1) % ntab
+		c.addExcl(y)
+		defer c.endExcl(y)
+	}
+	c.addExcl(x)
+	for i := 1 + r.Intn(4); i > 0; i-- {
+		switch r.Intn(6) {
+		case 0, 1, 2: // unrelated transaction runs to completion
+			t := c.start()
+			c.write(t, r.Intn(2), (x+1)%ntab, keys(), nil)
+			if r.Intn(3) == 0 {
+				c.abort(t)
+			} else {
+				c.commit(t)
+			}
+		case 3:
+			if len(early) > 0 {
+				k := r.Intn(len(early))
+				if r.Intn(2) == 0 {
+					c.commit(early[k])
+				} else {
+					c.abort(early[k])
+				}
+				early = append(early[:k], early[k+1:]...)
+			}
+		case 4:
+			y := (x + 1) % ntab
+			c.addExcl(y)
+			c.endExcl(y)
+		case 5:
+			c.tick()
+		}
+	}
+	// writers on the exclusive table
+	for i := 1 + r.Intn(2); i > 0; i-- {
+		var t *c01Tran
+		if len(early) > 0 && r.Intn(2) == 0 {
+			t = early[r.Intn(len(early))]
+		} else {
+			t = c.start()
+			early = append(early, t)
+		}
+		kind := r.Intn(3)
+		var ks2 []string
+		if kind == 2 {
+			ks2 = keys()
+		}
+		c.write(t, kind, x, keys(), ks2)
+	}
+	if r.Intn(3) != 0 {
+		c.endExcl(x)
+		for _, t := range early {
+			if r.Intn(2) == 0 {
+				c.write(t, 0, x, keys(), nil)
+			}
+		}
+	}
+	c.scenario = ""
 }
 
 // c01ReadMax: 2 x 10000 distinct point reads on two indexes reach readMax (thorough tier only)
